@@ -27,7 +27,14 @@
 (* A thread executes one job J (constant along a behaviour):                *)
 (*   conn, ledger   the connection and what it holds (same conn => same     *)
 (*                  ledger)                                                 *)
-(*   tab            "e" | "p"                                               *)
+(*   tab            "e" | "p" | "x": a typed table -- one row <<u, u, u>>   *)
+(*                  per directive of type `ty' (#transactions, #prices,     *)
+(*                  #events, ...: beanquery/sources/beancount.py Table);    *)
+(*                  a directive is [u, posts, ty], only type 0 has postings *)
+(*   parse          0: the statement is submitted as a syntax tree; k > 0:  *)
+(*                  as TEXT, and the execution can be descheduled at k      *)
+(*                  places inside the parser (beanquery/parser parse():     *)
+(*                  one parser, one tokenizer + position per call)          *)
 (*   star           SELECT * (the targets are the table's wildcard columns) *)
 (*   targets        atoms  col i | rp (run-time pause point) | cp (pause    *)
 (*                  point inside COMPILATION: a folded function call)       *)
@@ -47,15 +54,29 @@
 (*               "process-wide, keyed by rowid"  a column accessor keeps    *)
 (*                                 the value of `the current row' in one    *)
 (*                                 slot keyed by the rowid (non-vacuity)    *)
+(* ParserScope   "per call"        conforming: parse() builds its parser    *)
+(*               "process-wide"    one parser object (text + position) used *)
+(*                                 by every parse() call (non-vacuity)      *)
+(* ScanMemo      "none"            conforming: every scan of a typed table  *)
+(*                                 filters the ledger itself                *)
+(*               "rows published while the first scan fills them"  the      *)
+(*                                 table object keeps the rows of its type; *)
+(*                                 the list is filled by the first scan as  *)
+(*                                 it advances and read by every later scan *)
+(*                                 (non-vacuity)                            *)
 (***************************************************************************)
 EXTENDS Integers, Sequences, FiniteSets, TLC
 
-CONSTANTS Threads, CompilerScope, ColumnMemo
+CONSTANTS Threads, CompilerScope, ColumnMemo, ParserScope, ScanMemo
 
 PerExec == "per execution"
 PerConn == "per connection"
 NoMemo == "none"
 ByRowid == "process-wide, keyed by rowid"
+PerCall == "per call"
+OneParser == "process-wide"
+NoScanMemo == "none"
+LazyRows == "rows published while the first scan fills them"
 
 VARIABLES
     job,        \* [Threads -> job]
@@ -63,13 +84,18 @@ VARIABLES
                 \*    its compilation, the targets evaluated per row
     scratch,    \* [Threads -> [table, lo, hi]]  compiler scratch state; the entry a thread uses is Key(t)
     bound,      \* [Threads -> [lo, hi]]  the constants compiled into the thread's statement
-    ctx,        \* [Threads -> [rowid]]  row context of the thread's scan
+    ctx,        \* [Threads -> [rowid, src]]  row context of the thread's scan; src: "own" the scan walks the ledger
+                \*    itself | "memo" it walks the rows kept on the table object (ScanMemo = LazyRows only)
     pc,         \* [Threads -> [ph, i]]  ph: compile | next | where | target | emit | done
     cur,        \* [Threads -> Seq(Int)]  column values of the current row
     out,        \* [Threads -> Seq(Seq(Int))]  rows emitted so far
-    memo        \* [1..NCols -> [rowid, val]]  the process-wide slot of every column accessor
+    memo,       \* [1..NCols -> [rowid, val]]  the process-wide slot of every column accessor
+    parser,     \* [Threads -> [owner, pos]]  parser state: whose text is being read, tokens read; the entry a thread uses is PKey(t)
+    got,        \* [Threads -> Seq(<<owner, n>>)]  the tokens the thread's parse() call has read
+    tmemo       \* [Threads -> [open, n]]  rows kept on a typed table's object (entry TKey(t)); written only when ScanMemo = LazyRows
 
-vars == <<job, exe, scratch, bound, ctx, pc, cur, out, memo>>
+aux == <<parser, got, tmemo>>
+vars == <<job, exe, scratch, bound, ctx, pc, cur, out, memo, parser, got, tmemo>>
 
 NCols == 3
 DefaultTable == "d"
@@ -77,7 +103,7 @@ At(k, i) == [k |-> k, i |-> i]
 Pc(ph, i) == [ph |-> ph, i |-> i]
 ErrRow == <<-1>>            \* the statement failed (only a broken mechanism gets there)
 Job0 == [conn |-> 0, ledger |-> <<>>, tab |-> "e", star |-> FALSE, targets |-> <<>>, where |-> <<>>, lo |-> 0, hi |-> 0,
-         lit |-> TRUE, wpause |-> FALSE, ppause |-> FALSE]
+         lit |-> TRUE, wpause |-> FALSE, ppause |-> FALSE, ty |-> 0, parse |-> 0]
 
 -----------------------------------------------------------------------------
 (* the tables of a ledger *)
@@ -85,13 +111,18 @@ RECURSIVE PostRows(_, _)
 PostRows(ledger, d) ==
     IF d > Len(ledger) THEN <<>>
     ELSE [j \in 1..Len(ledger[d].posts) |-> <<ledger[d].posts[j], ledger[d].u, ledger[d].posts[j]>>] \o PostRows(ledger, d + 1)
-TableRows(ledger, tab) ==
-    IF tab = "e" THEN [d \in 1..Len(ledger) |-> <<ledger[d].u, ledger[d].u, ledger[d].u>>] ELSE PostRows(ledger, 1)
+DirRows(ds) == [d \in 1..Len(ds) |-> <<ds[d].u, ds[d].u, ds[d].u>>]
+TableRows(ledger, tab, ty) ==
+    CASE tab = "e" -> DirRows(ledger)
+      [] tab = "x" -> DirRows(SelectSeq(ledger, LAMBDA d : d.ty = ty))
+      [] OTHER -> PostRows(ledger, 1)
 
 (* the steps of the compilation, in the order the compiler takes them:
    B begin (parameters stored, default table selected)   F the FROM clause selects the table
    W wildcard columns asked from the selected table        C i  column i resolved against the selected table
-   L / H a parameter value read                            P pause point      Q the query is built on the selected table *)
+   L / H a parameter value read                            P pause point      Q the query is built on the selected table
+   before them, when the statement is submitted as text, the steps of the parser:
+   S a parser takes the text (position 0)    T the next token is read    E the syntax tree is complete *)
 RECURSIVE Flat(_)
 Flat(ss) == IF ss = <<>> THEN <<>> ELSE Head(ss) \o Flat(Tail(ss))
 ParamPause(J) == IF J.ppause /\ ~J.lit THEN <<At("P", 0)>> ELSE <<>>
@@ -102,30 +133,44 @@ AtomPlan(J, a) ==
       [] a.k = "hi" -> <<At("C", 1), At("H", 0)>> \o ParamPause(J)
       [] OTHER -> <<>>
 RunTargets(J) == IF J.star THEN [c \in 1..NCols |-> At("col", c)] ELSE J.targets
+ParsePlan(J) ==
+    IF J.parse = 0 THEN <<>>
+    ELSE <<At("S", 0)>> \o Flat([i \in 1..J.parse |-> <<At("T", 0), At("P", 0)>>]) \o <<At("T", 0), At("E", 0)>>
 Plan(J) ==
-    <<At("B", 0), At("F", 0)>>
+    ParsePlan(J) \o <<At("B", 0), At("F", 0)>>
     \o (IF J.star THEN <<At("W", 0)>> \o (IF J.wpause THEN <<At("P", 0)>> ELSE <<>>) ELSE <<>>)
     \o Flat([i \in 1..Len(RunTargets(J)) |-> AtomPlan(J, RunTargets(J)[i])])
     \o Flat([i \in 1..Len(J.where) |-> AtomPlan(J, J.where[i])])
     \o <<At("Q", 0)>>
-Exe(J) == [rows |-> TableRows(J.ledger, J.tab), plan |-> Plan(J), tg |-> RunTargets(J)]
+Exe(J) == [rows |-> TableRows(J.ledger, J.tab, J.ty), plan |-> Plan(J), tg |-> RunTargets(J)]
 
 Scratch0 == [table |-> DefaultTable, lo |-> 0, hi |-> 0]
+Ctx0 == [rowid |-> 0, src |-> "own"]
+Parser0 == [owner |-> 0, pos |-> 0]
+TMemo0 == [open |-> FALSE, n |-> 0]
 InitWith(jobs) ==
     /\ job = jobs
     /\ exe = [t \in Threads |-> Exe(jobs[t])]
     /\ scratch = [t \in Threads |-> Scratch0]
     /\ bound = [t \in Threads |-> [lo |-> 0, hi |-> 0]]
-    /\ ctx = [t \in Threads |-> [rowid |-> 0]]
+    /\ ctx = [t \in Threads |-> Ctx0]
     /\ pc = [t \in Threads |-> IF jobs[t] = Job0 THEN Pc("done", 0) ELSE Pc("compile", 1)]     \* Job0: the thread is not used
     /\ cur = [t \in Threads |-> <<>>]
     /\ out = [t \in Threads |-> <<>>]
     /\ memo = [c \in 1..NCols |-> [rowid |-> 0, val |-> 0]]
+    /\ parser = [t \in Threads |-> Parser0]
+    /\ got = [t \in Threads |-> <<>>]
+    /\ tmemo = [t \in Threads |-> TMemo0]
 
 (* the compiler (scratch state) an execution uses *)
 Key(t) ==
     IF CompilerScope = PerExec THEN t
     ELSE CHOOSE u \in Threads : job[u].conn = job[t].conn /\ \A w \in Threads : job[w].conn = job[t].conn => u <= w
+
+(* the parser a parse() call uses; the table object a scan of a typed table walks *)
+Least(S) == CHOOSE u \in S : \A w \in S : u <= w
+PKey(t) == IF ParserScope = PerCall THEN t ELSE Least(Threads)
+TKey(t) == Least({u \in Threads : job[u].conn = job[t].conn /\ job[u].tab = job[t].tab /\ job[u].ty = job[t].ty})
 
 -----------------------------------------------------------------------------
 (* compilation *)
@@ -134,40 +179,71 @@ CAtom(t) == exe[t].plan[pc[t].i]
 Go(t) == pc' = [pc EXCEPT ![t] = IF pc[t].i = Len(exe[t].plan) THEN Pc("next", 0) ELSE Pc("compile", pc[t].i + 1)]
 Fail(t) == pc' = [pc EXCEPT ![t] = Pc("done", 0)] /\ out' = [out EXCEPT ![t] = <<ErrRow>>]
 
+(* the parser: parse() hands the text to a parser (position 0), the parser reads it token by token -- from whatever
+   text it holds now, at whatever position it has now; the syntax tree is the statement's only if every token read
+   was the next token of the statement's own text *)
+OwnTokens(t, s) == \A i \in 1..Len(s) : s[i] = <<t, i>>
+ParseStart(t) ==
+    /\ Compiling(t, {"S"})
+    /\ parser' = [parser EXCEPT ![PKey(t)] = [owner |-> t, pos |-> 0]]
+    /\ got' = [got EXCEPT ![t] = <<>>]
+    /\ Go(t)
+    /\ UNCHANGED <<job, exe, scratch, bound, ctx, cur, out, memo, tmemo>>
+Token(t) ==
+    /\ Compiling(t, {"T"})
+    /\ LET p == parser[PKey(t)] IN
+         /\ got' = [got EXCEPT ![t] = Append(@, <<p.owner, p.pos + 1>>)]
+         /\ parser' = [parser EXCEPT ![PKey(t)].pos = p.pos + 1]
+    /\ Go(t)
+    /\ UNCHANGED <<job, exe, scratch, bound, ctx, cur, out, memo, tmemo>>
+ParseEnd(t) ==
+    /\ Compiling(t, {"E"})
+    /\ IF OwnTokens(t, got[t]) THEN Go(t) /\ UNCHANGED out ELSE Fail(t)
+    /\ UNCHANGED <<job, exe, scratch, bound, ctx, cur, memo, aux>>
+
 Begin(t) ==
     /\ Compiling(t, {"B"})
     /\ scratch' = [scratch EXCEPT ![Key(t)] = [table |-> DefaultTable, lo |-> job[t].lo, hi |-> job[t].hi]]
     /\ Go(t)
-    /\ UNCHANGED <<job, exe, bound, ctx, cur, out, memo>>
+    /\ UNCHANGED <<job, exe, bound, ctx, cur, out, memo, aux>>
 From(t) ==
     /\ Compiling(t, {"F"})
     /\ scratch' = [scratch EXCEPT ![Key(t)].table = job[t].tab]
     /\ Go(t)
-    /\ UNCHANGED <<job, exe, bound, ctx, cur, out, memo>>
+    /\ UNCHANGED <<job, exe, bound, ctx, cur, out, memo, aux>>
 (* a name (or the wildcard) is resolved against whatever table the compiler has selected now; the statement is
    right only if that is the table of its own FROM clause *)
 Resolve(t) ==
     /\ Compiling(t, {"W", "C"})
     /\ IF scratch[Key(t)].table = job[t].tab THEN Go(t) /\ UNCHANGED out ELSE Fail(t)
-    /\ UNCHANGED <<job, exe, scratch, bound, ctx, cur, memo>>
+    /\ UNCHANGED <<job, exe, scratch, bound, ctx, cur, memo, aux>>
 Bind(t) ==
     /\ Compiling(t, {"L", "H"})
     /\ bound' = IF CAtom(t).k = "L"
                 THEN [bound EXCEPT ![t].lo = IF job[t].lit THEN job[t].lo ELSE scratch[Key(t)].lo]
                 ELSE [bound EXCEPT ![t].hi = IF job[t].lit THEN job[t].hi ELSE scratch[Key(t)].hi]
     /\ Go(t)
-    /\ UNCHANGED <<job, exe, scratch, ctx, cur, out, memo>>
+    /\ UNCHANGED <<job, exe, scratch, ctx, cur, out, memo, aux>>
 CompilePause(t) ==
     /\ Compiling(t, {"P"})
     /\ Go(t)
-    /\ UNCHANGED <<job, exe, scratch, bound, ctx, cur, out, memo>>
+    /\ UNCHANGED <<job, exe, scratch, bound, ctx, cur, out, memo, aux>>
+(* the query is built and its scan opened: a scan walks the ledger itself ("own"); only under ScanMemo = LazyRows
+   the first scan of a typed table also fills the list kept on the table object, and every later scan walks that list *)
+OpenScan(t) ==
+    IF ScanMemo = LazyRows /\ job[t].tab = "x"
+    THEN IF tmemo[TKey(t)].open
+         THEN ctx' = [ctx EXCEPT ![t].src = "memo"] /\ UNCHANGED tmemo
+         ELSE tmemo' = [tmemo EXCEPT ![TKey(t)] = [open |-> TRUE, n |-> 0]] /\ UNCHANGED ctx
+    ELSE UNCHANGED <<ctx, tmemo>>
 Build(t) ==
     /\ Compiling(t, {"Q"})
     /\ IF scratch[Key(t)].table = job[t].tab
        THEN /\ scratch' = [scratch EXCEPT ![Key(t)].table = DefaultTable]
+            /\ OpenScan(t)
             /\ Go(t) /\ UNCHANGED out
-       ELSE Fail(t) /\ UNCHANGED scratch
-    /\ UNCHANGED <<job, exe, bound, ctx, cur, memo>>
+       ELSE Fail(t) /\ UNCHANGED <<scratch, ctx, tmemo>>
+    /\ UNCHANGED <<job, exe, bound, cur, memo, parser, got>>
 
 -----------------------------------------------------------------------------
 (* the scan *)
@@ -181,16 +257,20 @@ SkipRow(t) == pc' = [pc EXCEPT ![t] = Pc("next", 0)]
 InRow(t) == pc[t].ph \in {"where", "target"}
 Atom(t) == IF pc[t].ph = "where" THEN job[t].where[pc[t].i] ELSE exe[t].tg[pc[t].i]
 
+(* the rows the scan can still get: all rows of its table, or what the list on the table object holds by now *)
+Available(t) == IF ctx[t].src = "memo" THEN tmemo[TKey(t)].n ELSE Len(exe[t].rows)
+Filling(t) == ScanMemo = LazyRows /\ job[t].tab = "x" /\ ctx[t].src = "own"
 NextRow(t) ==
-    /\ pc[t].ph = "next" /\ ctx[t].rowid < Len(exe[t].rows)
+    /\ pc[t].ph = "next" /\ ctx[t].rowid < Available(t)
     /\ ctx' = [ctx EXCEPT ![t].rowid = @ + 1]
+    /\ tmemo' = IF Filling(t) THEN [tmemo EXCEPT ![TKey(t)].n = @ + 1] ELSE tmemo
     /\ pc' = [pc EXCEPT ![t] = Norm(t, "where", 1)]
     /\ cur' = [cur EXCEPT ![t] = <<>>]
-    /\ UNCHANGED <<job, exe, scratch, bound, out, memo>>
+    /\ UNCHANGED <<job, exe, scratch, bound, out, memo, parser, got>>
 Finish(t) ==
-    /\ pc[t].ph = "next" /\ ctx[t].rowid = Len(exe[t].rows)
+    /\ pc[t].ph = "next" /\ ctx[t].rowid = Available(t)
     /\ pc' = [pc EXCEPT ![t] = Pc("done", 0)]
-    /\ UNCHANGED <<job, exe, scratch, bound, ctx, cur, out, memo>>
+    /\ UNCHANGED <<job, exe, scratch, bound, ctx, cur, out, memo, aux>>
 
 (* one evaluation of column c for the current row *)
 Own(t, c) == exe[t].rows[ctx[t].rowid][c]
@@ -206,31 +286,32 @@ Test(t) ==
            truth == IF Atom(t).k = "lo" THEN v >= bound[t].lo ELSE v <= bound[t].hi
        IN IF truth THEN Advance(t) ELSE SkipRow(t)
     /\ Remember(t, 1)
-    /\ UNCHANGED <<job, exe, scratch, bound, ctx, cur, out>>
+    /\ UNCHANGED <<job, exe, scratch, bound, ctx, cur, out, aux>>
 Column(t) ==
     /\ pc[t].ph = "target" /\ Atom(t).k = "col"
     /\ cur' = [cur EXCEPT ![t] = Append(@, ColVal(t, Atom(t).i))]
     /\ Remember(t, Atom(t).i)
     /\ Advance(t)
-    /\ UNCHANGED <<job, exe, scratch, bound, ctx, out>>
+    /\ UNCHANGED <<job, exe, scratch, bound, ctx, out, aux>>
 (* a run-time pause point: the thread can be descheduled here for as long as the scheduler likes *)
 Yield(t) ==
     /\ InRow(t) /\ Atom(t).k = "rp"
     /\ Advance(t)
-    /\ UNCHANGED <<job, exe, scratch, bound, ctx, cur, out, memo>>
+    /\ UNCHANGED <<job, exe, scratch, bound, ctx, cur, out, memo, aux>>
 (* the folded call: a constant at run time *)
 Const(t) ==
     /\ InRow(t) /\ Atom(t).k = "cp"
     /\ Advance(t)
-    /\ UNCHANGED <<job, exe, scratch, bound, ctx, cur, out, memo>>
+    /\ UNCHANGED <<job, exe, scratch, bound, ctx, cur, out, memo, aux>>
 EmitRow(t) ==
     /\ pc[t].ph = "emit"
     /\ pc' = [pc EXCEPT ![t] = Pc("next", 0)]
     /\ out' = [out EXCEPT ![t] = Append(@, cur[t])]
     /\ cur' = [cur EXCEPT ![t] = <<>>]
-    /\ UNCHANGED <<job, exe, scratch, bound, ctx, memo>>
+    /\ UNCHANGED <<job, exe, scratch, bound, ctx, memo, aux>>
 
 Step(t) ==
+    \/ ParseStart(t) \/ Token(t) \/ ParseEnd(t)
     \/ Begin(t) \/ From(t) \/ Resolve(t) \/ Bind(t) \/ CompilePause(t) \/ Build(t)
     \/ NextRow(t) \/ Finish(t) \/ Test(t) \/ Column(t) \/ Yield(t) \/ Const(t) \/ EmitRow(t)
 Next == \E t \in Threads : Step(t)
@@ -249,7 +330,7 @@ Proj(J, row) ==
         idx == SelectSeq([i \in 1..Len(tg) |-> i], LAMBDA i : tg[i].k = "col")
     IN [n \in 1..Len(idx) |-> row[tg[idx[n]].i]]
 SerialRows(J) ==
-    LET sel == SelectSeq(TableRows(J.ledger, J.tab), LAMBDA r : Passes(J, r))
+    LET sel == SelectSeq(TableRows(J.ledger, J.tab, J.ty), LAMBDA r : Passes(J, r))
     IN [n \in 1..Len(sel) |-> Proj(J, sel[n])]
 
 IsPrefix(s, t) == Len(s) <= Len(t) /\ s = SubSeq(t, 1, Len(s))
@@ -270,6 +351,8 @@ OwnParameters ==
     \A t \in Threads : pc[t].ph \notin {"compile", "done"} =>
         /\ Has(job[t].where, "lo") => bound[t].lo = job[t].lo
         /\ Has(job[t].where, "hi") => bound[t].hi = job[t].hi
+(* the syntax tree an execution compiles was read from its own statement text *)
+OwnStatement == \A t \in Threads : OwnTokens(t, got[t])
 (* every value of the current row belongs to the current row of the thread's own scan *)
 OwnRow ==
     \A t \in Threads : \A j \in 1..Len(cur[t]) : \E c \in 1..NCols : cur[t][j] = Own(t, c)
@@ -278,8 +361,8 @@ OwnRow ==
 NonInterference ==
     [][\A u \in Threads : pc'[u] = pc[u] =>
           /\ scratch'[u] = scratch[u] /\ bound'[u] = bound[u] /\ ctx'[u] = ctx[u]
-          /\ cur'[u] = cur[u] /\ out'[u] = out[u]]_vars
-NoSharedState == [][ColumnMemo = NoMemo => memo' = memo]_vars
+          /\ cur'[u] = cur[u] /\ out'[u] = out[u] /\ parser'[u] = parser[u] /\ got'[u] = got[u]]_vars
+NoSharedState == [][(ColumnMemo = NoMemo => memo' = memo) /\ (ScanMemo = NoScanMemo => tmemo' = tmemo)]_vars
 JobConstant == [][job' = job /\ exe' = exe]_vars
 
 Fairness == \A t \in Threads : WF_vars(Step(t))
